@@ -51,12 +51,20 @@ N1Wide == {Plain("n1", x[1], x[2], x[3]) : x \in {y \in Ty \X Ty \X Dyn : DynOK(
 N1Mid == {Plain("n1", "str", "iface", "impl"), Plain("n1", "any", "iface", "impl2"), Plain("n1", "iface", "impl", "impl"), Plain("n1", "impl", "any", "msa"),
           Plain("n1", "msa", "msa", "msa"), Plain("n1", "int", "str", "str"), Plain("n1", "any", "any", "impl"), Plain("n1", "iface", "any", "impl2")}
 N2Mid == {Plain("n2", "impl", "str", "str"), Plain("n2", "iface", "int", "int"), Plain("n2", "str", "any", "int"), Plain("n2", "any", "msa", "msa"), Plain("n2", "msa", "iface", "impl2")}
+N1Named == {Plain("n1", "nmsa", "nmsa", "nmsa"), Plain("n1", "any", "msa", "msa"), Plain("n1", "msa", "any", "nmsa"), Plain("n1", "any", "any", "msa")}
+StaticOp(k, p, v) == MkOp("static", k, "", "", "", "", v, "", "", <<>>, "", "", p)
 Inits ==
   CASE Fam = "flow" ->   \* C07 tight universe: one typed node, two pass-through nodes, 3 types
          {<<Hdr("graph", gi, "any", FALSE), <<n, PassOp("p1", "", "")>> \o tail>> :
              gi \in {"str", "any"}, n \in N1Flow, tail \in {<<>>, <<PassOp("p2", "", "")>>}}
     [] Fam = "flowend" ->   \* concretely typed graph output
          {<<Hdr("graph", gi, "str", FALSE), <<n, PassOp("p1", "", "")>>>> : gi \in {"str", "any"}, n \in N1Flow}
+    [] Fam = "flown" ->   \* the flow universe over an unnamed composite type and a DEFINED type with the same underlying type
+         {<<Hdr("graph", gi, "any", FALSE), <<n, PassOp("p1", "", "")>>>> : gi \in {"msa", "nmsa"}, n \in N1Named}
+    [] Fam = "flowio" ->  \* graph input type # graph output type, an interface-typed producer next to START (whose helper describes both types)
+         {<<Hdr("graph", "str", "int", FALSE), <<Plain("n1", "str", "any", e), Plain("n2", "str", "int", "int"), PassOp("p1", "", "")>> \o tail
+                                                  \o <<EdgeOp(START, "n1", ""), EdgeOp("n2", END, "")>>>> :
+             e \in {"str", "int"}, tail \in {<<>>, <<PassOp("p2", "", "")>>}}
     [] Fam = "flow2" ->  \* two typed nodes, all six types (sampled)
          {<<Hdr("graph", gi, go, FALSE), <<n, m, PassOp("p1", "", ""), PassOp("p2", "", "")>>>> :
              gi \in Ty, go \in {"any", "str", "iface"}, n \in N1Mid, m \in N2Mid}
@@ -67,15 +75,22 @@ Inits ==
     [] Fam = "seqs" ->   \* the same with graph state (state handlers legal)
          {<<Hdr("graph", "str", "str", TRUE), <<Plain("n1", "str", "str", "str")>>>>}
     [] Fam = "wf" ->     \* workflow front end: field mappings, compiled twice
-         {<<Hdr("wf", "msa", "msa", FALSE), <<[Plain("n1", i, "msa", "msa") EXCEPT !.x = x], EdgeOp(START, "n1", "fm"), EdgeOp("n1", END, "fm")>>>> :
-             i \in {"rec", "msa"}, x \in {"", "sv"}}      \* x = "sv": the node also has a static value (workflow.go:436-476)
+         {<<Hdr("wf", "msa", "msa", FALSE), <<Plain("n1", i, "msa", "msa"), EdgeOp(START, "n1", "fm"), EdgeOp("n1", END, "fm")>> \o st>> :
+             i \in {"rec", "msa"}, st \in {<<>>, <<StaticOp("n1", "s", "a")>>}}      \* with / without a static value (workflow.go:436-476)
+    [] Fam = "wfin" ->   \* workflow inputs declared in every kind and order: AddInput, AddInputWithOptions(NoDirectDependency), AddDependency
+         {<<Hdr("wf", "msa", "msa", FALSE), <<Plain("n1", "msa", "msa", "msa")>>>>}
 
 FlowKeys == {"n1", "n2", "p1", "p2"}
 SeqKeys == {"n1", "p1"}
 Alphabet(K) ==   \* K = keys declared so far
-  CASE Fam \in {"flow", "flowend"} ->
+  CASE Fam \in {"flow", "flowend", "flown"} ->
          {EdgeOp(p[1], p[2], "") : p \in {q \in (K \cup {START}) \X (K \cup {END}) : q[1] # q[2]}}
-         \cup {BranchOp(p[1], p[2], <<p[3], END>>, p[4]) : p \in {q \in (K \cup {START}) \X T3 \X K \X (K \cup {END}) : q[1] # q[3] /\ q[4] \in {q[3], END}}}
+         \cup {BranchOp(p[1], p[2], <<p[3], END>>, p[4]) : p \in {q \in (K \cup {START}) \X (IF Fam = "flown" THEN {"msa", "nmsa", "any"} ELSE T3) \X K \X (K \cup {END}) :
+                                                                  q[1] # q[3] /\ q[4] \in {q[3], END}}}
+    [] Fam = "flowio" ->
+         {EdgeOp(p[1], p[2], "") : p \in {q \in (K \cup {START}) \X (K \cup {END}) : q[1] # q[2] /\ q[1] # "n2" /\ q # <<START, "n1">> /\ q # <<START, END>>}}
+    [] Fam = "wfin" ->
+         {EdgeOp(START, "n1", x) : x \in {"fm", "fm2", "dfm", "dfm2", "c"}} \cup {EdgeOp("n1", END, x) : x \in {"fm", "fm2", "dfm", "c"}}
     [] Fam = "flow2" ->
          {EdgeOp(p[1], p[2], "") : p \in (K \cup {START}) \X (K \cup {END})}
          \cup {BranchOp(p[1], p[2], <<p[3], p[4]>>, p[5]) : p \in {q \in (K \cup {START}) \X Ty \X K \X (K \cup {END}) \X (K \cup {END}) : q[3] # q[4] /\ q[5] = q[3]}}
@@ -88,16 +103,19 @@ Alphabet(K) ==   \* K = keys declared so far
 CompileAlphabet == IF Fam \in {"seq", "seqs", "seqp"} THEN {CompileOp("any", ""), CompileOp("all", ""), CompileOp("all", "maxsteps"), CompileOp("any", "maxsteps")}
                    ELSE {CompileOp("any", "")}
 PostAlphabet(K) == IF Fam \in {"seq", "seqs", "seqp"} THEN Alphabet(K) \cup CompileAlphabet
-                   ELSE IF Fam = "wf" THEN {CompileOp("any", "")}     \* (the workflow Add* calls return no error value)
+                   ELSE IF Fam = "wf" THEN   \* on the retained *WorkflowNode handles (these calls return no error value)
+                        {CompileOp("any", ""), StaticOp("n1", "s", "b"), StaticOp("n1", "s2", "b"), EdgeOp(START, "n1", "fm2")}
+                   ELSE IF Fam = "wfin" THEN {CompileOp("any", "")}
                    ELSE {EdgeOp("n1", END, ""), PassOp("p9", "", ""), BranchOp(START, "any", <<"n1", END>>, END), CompileOp("any", "")}
 
 --------------------------------------------------------------------------------
 VARIABLES hdr, todo, plen,
           nodes, ctrl, data, brs, tv, mayE, preNode, fmk, berr, compiled, startN, endN,   \* the builder
+          wf,                                                                             \* the Workflow wrapper: deferred inputs, static values, mapped target paths
           snap,                                                                           \* handler maps as they were when the first runnable was made
           hist, outs, pc, cur
-vars == <<hdr, todo, plen, nodes, ctrl, data, brs, tv, mayE, preNode, fmk, berr, compiled, startN, endN, snap, hist, outs, pc, cur>>
-builder == <<nodes, ctrl, data, brs, tv, mayE, preNode, fmk, berr, compiled, startN, endN, snap>>
+vars == <<hdr, todo, plen, nodes, ctrl, data, brs, tv, mayE, preNode, fmk, berr, compiled, startN, endN, wf, snap, hist, outs, pc, cur>>
+builder == <<nodes, ctrl, data, brs, tv, mayE, preNode, fmk, berr, compiled, startN, endN, wf, snap>>
 case == <<hdr, todo, plen, hist>>
 
 AllKeys == {"n1", "n2", "p1", "p2", "p9", "zz"}
@@ -107,6 +125,7 @@ NoSnap == [set |-> FALSE, mayE |-> {}, brmay |-> <<>>, preNode |-> [k \in AllKey
 Init == /\ \E x \in Inits : hdr = x[1] /\ todo = x[2] /\ plen = Len(x[2])
         /\ nodes = [k \in AllKeys |-> NoNode] /\ ctrl = {} /\ data = {} /\ brs = <<>> /\ tv = {} /\ mayE = {}
         /\ preNode = [k \in AllKeys |-> 0] /\ fmk = {}
+        /\ wf = [dfr |-> <<>>, sv |-> {}, mapped |-> {}]
         /\ berr = 0 /\ compiled = FALSE /\ startN = FALSE /\ endN = FALSE /\ snap = NoSnap
         /\ hist = <<>> /\ outs = <<>> /\ pc = "idle" /\ cur = NoCur
 
@@ -130,19 +149,19 @@ DoNode(op, j) ==
              \/ (op.h # "" /\ ~hdr.state)
              \/ (op.h = "pre" /\ (IF pass THEN op.t # "any" ELSE op.t # op.i))
              \/ (op.h = "post" /\ (IF pass THEN op.t # "any" ELSE op.t # op.o))
-  IN IF bad THEN Fail(j) /\ UNCHANGED <<nodes, ctrl, data, brs, tv, mayE, preNode, fmk, compiled, startN, endN, snap>>
+  IN IF bad THEN Fail(j) /\ UNCHANGED <<nodes, ctrl, data, brs, tv, mayE, preNode, fmk, compiled, startN, endN, wf, snap>>
      ELSE /\ nodes' = [nodes EXCEPT ![op.k] = [kind |-> IF pass THEN "pass" ELSE "typed", i |-> IF pass THEN "nil" ELSE op.i, o |-> IF pass THEN "nil" ELSE op.o]]
-          /\ Finish("ok") /\ UNCHANGED <<ctrl, data, brs, tv, mayE, preNode, fmk, berr, compiled, startN, endN, snap>>
+          /\ Finish("ok") /\ UNCHANGED <<ctrl, data, brs, tv, mayE, preNode, fmk, berr, compiled, startN, endN, wf, snap>>
 
 (* addEdgeWithMappings (control + data edge) up to the call of updateToValidateMap *)
 DoEdge(op, j) ==
   LET a == op.a  b == op.b
       bad == a = END \/ b = START \/ (~Known(a) /\ a # START) \/ (~Known(b) /\ b # END) \/ <<a, b>> \in ctrl \/ <<a, b>> \in data
-  IN IF bad THEN Fail(j) /\ UNCHANGED <<nodes, ctrl, data, brs, tv, mayE, preNode, fmk, compiled, startN, endN, snap>>
+  IN IF bad THEN Fail(j) /\ UNCHANGED <<nodes, ctrl, data, brs, tv, mayE, preNode, fmk, compiled, startN, endN, wf, snap>>
      ELSE /\ ctrl' = ctrl \cup {<<a, b>>} /\ startN' = (startN \/ a = START) /\ endN' = (endN \/ b = END)
           /\ tv' = tv \cup {<<a, b, op.x>>}
           /\ pc' = "upd" /\ cur' = [NoCur EXCEPT !.j = j, !.a = a, !.b = b, !.op = op]
-          /\ UNCHANGED <<nodes, data, brs, mayE, preNode, fmk, berr, compiled, snap, outs>>
+          /\ UNCHANGED <<nodes, data, brs, mayE, preNode, fmk, berr, compiled, wf, snap, outs>>
 
 (* updateToValidateMap: one entry per micro-step, any processable one *)
 Processable(p) == ~(OutType(p[1]) = "nil" /\ InType(p[2]) = "nil")
@@ -158,17 +177,17 @@ UpdStep ==
           ELSE IF so = "nil" THEN            \* predecessor pass-through takes the successor's type
             /\ nodes' = [nodes EXCEPT ![s].i = ei, ![s].o = ei]
             /\ UNCHANGED <<mayE, fmk, berr, outs, pc, cur>>
-          ELSE IF p[3] = "fm" THEN           \* field mapping: no whole-value assignability check, converter recorded for the target
+          ELSE IF IsFM(p[3]) THEN            \* field mapping: no whole-value assignability check, converter recorded for the target
             /\ fmk' = fmk \cup {e} /\ UNCHANGED <<nodes, mayE, berr, outs, pc, cur>>
           ELSE IF r = "mustnot" THEN Fail(cur.j) /\ UNCHANGED <<nodes, mayE, fmk>>
-          ELSE /\ mayE' = IF r = "may" THEN mayE \cup {<<s, e>>} ELSE mayE
+          ELSE /\ mayE' = IF r = "may" THEN mayE \cup {<<s, e, ei>>} ELSE mayE     \* the converter checks against the end node's type as it is NOW
                /\ UNCHANGED <<nodes, fmk, berr, outs, pc, cur>>
-  /\ UNCHANGED <<case, ctrl, data, brs, preNode, compiled, startN, endN, snap>>
+  /\ UNCHANGED <<case, ctrl, data, brs, preNode, compiled, startN, endN, wf, snap>>
 UpdDone ==
   /\ pc \in {"upd", "brupd"} /\ Pending = {}
   /\ IF pc = "upd" THEN /\ data' = data \cup {<<cur.a, cur.b>>} /\ Finish("ok")
                    ELSE /\ pc' = "brloop" /\ UNCHANGED <<data, outs, cur>>
-  /\ UNCHANGED <<case, nodes, ctrl, brs, tv, mayE, preNode, fmk, berr, compiled, startN, endN, snap>>
+  /\ UNCHANGED <<case, nodes, ctrl, brs, tv, mayE, preNode, fmk, berr, compiled, startN, endN, wf, snap>>
 
 (* addBranch *)
 DoBranch(op, j) ==
@@ -178,10 +197,10 @@ DoBranch(op, j) ==
       nodes2 == IF bad1 \/ ~over THEN nodes ELSE [nodes EXCEPT ![a].i = op.t, ![a].o = op.t]
       so == IF a = START THEN hdr.gi ELSE IF bad1 THEN "nil" ELSE nodes2[a].o
       r == Check(so, op.t)
-  IN IF bad1 \/ r = "mustnot" THEN Fail(j) /\ UNCHANGED <<nodes, ctrl, data, brs, tv, mayE, preNode, fmk, compiled, startN, endN, snap>>
+  IN IF bad1 \/ r = "mustnot" THEN Fail(j) /\ UNCHANGED <<nodes, ctrl, data, brs, tv, mayE, preNode, fmk, compiled, startN, endN, wf, snap>>
      ELSE /\ nodes' = nodes2
           /\ pc' = "brloop" /\ cur' = [NoCur EXCEPT !.j = j, !.a = a, !.b = r, !.rem = Range(op.ends), !.op = op]
-          /\ UNCHANGED <<ctrl, data, brs, tv, mayE, preNode, fmk, berr, compiled, startN, endN, snap, outs>>
+          /\ UNCHANGED <<ctrl, data, brs, tv, mayE, preNode, fmk, berr, compiled, startN, endN, wf, snap, outs>>
 BrLoop ==
   /\ pc = "brloop"
   /\ IF cur.rem = {} THEN
@@ -192,35 +211,69 @@ BrLoop ==
        ELSE /\ tv' = tv \cup {<<cur.a, e, "">>} /\ startN' = (startN \/ cur.a = START) /\ endN' = (endN \/ e = END)
             /\ cur' = [cur EXCEPT !.rem = cur.rem \ {e}] /\ pc' = "brupd"
             /\ UNCHANGED <<brs, berr, outs>>
-  /\ UNCHANGED <<case, nodes, ctrl, data, mayE, preNode, fmk, compiled, snap>>
+  /\ UNCHANGED <<case, nodes, ctrl, data, mayE, preNode, fmk, compiled, wf, snap>>
 
 (* compile *)
 \* validateDAG: repeatedly release the nodes all of whose non-START control predecessors are released
 CtrlPairs == ctrl \cup UNION {{<<brs[b].a, e>> : e \in brs[b].ends} : b \in 1..Len(brs)}
-RECURSIVE Released(_)
-Released(R) == LET R2 == R \cup {n \in Declared : \A p \in CtrlPairs : (p[2] = n /\ p[1] # START) => p[1] \in R}
-               IN IF R2 = R THEN R ELSE Released(R2)
-DagOK == Released({}) = Declared
 Untyped == {k \in Declared : nodes[k].i = "nil"}
+DagOKOn(C) == LET RECURSIVE Rel(_)
+                  Rel(R) == LET R2 == R \cup {n \in Declared : \A p \in C : (p[2] = n /\ p[1] # START) => p[1] \in R} IN IF R2 = R THEN R ELSE Rel(R2)
+              IN Rel({}) = Declared
+
+(* Workflow wrapper (workflow.go:167-336, :406-481): AddInput / AddInputWithOptions / AddDependency only record a closure; Compile    *)
+(* performs them in declaration order: target-path bookkeeping (checkAndAddMappedPath) first, then addEdgeWithMappings with          *)
+(* noControl (WithNoDirectDependency) or noData (AddDependency); then the static values of every node are checked against the        *)
+(* mapped paths and installed as a pre-node handler built from a SNAPSHOT of the values.                                            *)
+PathOf(x) == CASE x \in {"fm", "dfm"} -> "k" [] x \in {"fm2", "dfm2"} -> "k2" [] x = "c" -> "" [] OTHER -> "*"
+NoCtrl(x) == x \in {"dfm", "dfm2"}
+NoData(x) == x = "c"
+RECURSIVE WfFold(_, _)
+WfFold(i, R) ==
+  IF i > Len(wf.dfr) \/ R.res # "ok" THEN R
+  ELSE LET e == wf.dfr[i]  a == e.a  b == e.b  p == PathOf(e.x)
+           clash == p # "" /\ \E m \in R.mapped : m[1] = b /\ (m[2] = p \/ m[2] = "*" \/ p = "*")
+           unknown == a = END \/ b = START \/ (~Known(a) /\ a # START) \/ (~Known(b) /\ b # END)
+           dupc == ~NoCtrl(e.x) /\ <<a, b>> \in R.ctrl
+           dupd == ~NoData(e.x) /\ <<a, b>> \in R.data
+           R1 == [R EXCEPT !.mapped = IF p = "" THEN R.mapped ELSE R.mapped \cup {<<b, p>>}]
+           R2 == IF NoCtrl(e.x) THEN R1 ELSE [R1 EXCEPT !.ctrl = R1.ctrl \cup {<<a, b>>}, !.startN = R1.startN \/ a = START, !.endN = R1.endN \/ b = END]
+           R3 == IF NoData(e.x) THEN R2 ELSE [R2 EXCEPT !.data = R2.data \cup {<<a, b>>}, !.fmk = IF IsFM(e.x) THEN R2.fmk \cup {b} ELSE R2.fmk]
+       IN IF clash THEN [R EXCEPT !.res = "E"]                          \* a workflow-level error, not recorded in buildError
+          ELSE IF compiled THEN [R1 EXCEPT !.res = "C"]                   \* graph.go:235 (before the deferred recorder of buildError)
+          ELSE IF unknown \/ dupc THEN [R1 EXCEPT !.res = "E", !.sticky = TRUE]
+          ELSE IF dupd THEN [R2 EXCEPT !.res = "E", !.sticky = TRUE]       \* graph.go:277-282, also when this declaration carries control
+          ELSE WfFold(i + 1, R3)
+
 DoCompile(op, j) ==
-  LET err1 == ~startN \/ ~endN \/ tv # {} \/ (FixD15 /\ Untyped # {})
+  LET isWf == hdr.fe = "wf"
+      R0 == [ctrl |-> ctrl, data |-> data, fmk |-> fmk, startN |-> startN, endN |-> endN, mapped |-> wf.mapped, res |-> "ok", sticky |-> FALSE]
+      R == IF isWf /\ berr = 0 THEN WfFold(1, R0) ELSE R0
+      \* workflow.go:436-447: a static value's path must not be mapped yet -- after a first Compile its own path is
+      svClash == isWf /\ R.res = "ok" /\ \E m \in wf.sv : m \in R.mapped
+      wfres == IF R.res # "ok" THEN R.res ELSE IF svClash THEN "E" ELSE "ok"
+      err1 == ~R.startN \/ ~R.endN \/ tv # {} \/ (FixD15 /\ Untyped # {})
       \* graph.go:673-685: one more pre-node converter per field-mapped target, appended to the map the runners share
-      pre2 == IF FixD7 THEN preNode ELSE [k \in AllKeys |-> IF k \in fmk THEN preNode[k] + 1 ELSE preNode[k]]
-      \* workflow.go:436-447: a static value's path is recorded as mapped by the first Compile, a later Compile finds it taken
-      sv == hdr.fe = "wf" /\ compiled /\ \E i \in 1..Len(hist) : hist[i].op = "node" /\ hist[i].x = "sv"
+      pre2 == IF FixD7 THEN preNode ELSE [k \in AllKeys |-> IF k \in R.fmk THEN preNode[k] + 1 ELSE preNode[k]]
+      dag == op.m = "all" \/ isWf
+      cpairs == R.ctrl \cup UNION {{<<brs[b].a, e>> : e \in brs[b].ends} : b \in 1..Len(brs)}
       res == IF berr # 0 THEN "S"
-             ELSE IF sv THEN "E"
+             ELSE IF wfres # "ok" THEN wfres
              ELSE IF err1 THEN "E"
-             ELSE IF op.m = "all" /\ ~DagOK THEN "E"
+             ELSE IF dag /\ ~DagOKOn(cpairs) THEN "E"
              ELSE IF Untyped # {} THEN "P"               \* graph.go:809-811 dereferences the nil genericHelper of an untyped node
              ELSE IF op.m = "all" /\ op.x = "maxsteps" THEN "E"
              ELSE "ok"
-      mutates == berr = 0 /\ ~sv /\ ~err1
+      mutates == berr = 0 /\ wfres = "ok" /\ ~err1
   IN /\ preNode' = IF mutates THEN pre2 ELSE preNode
      /\ compiled' = (compiled \/ res = "ok")
      /\ snap' = IF res = "ok" /\ ~snap.set THEN [set |-> TRUE, mayE |-> mayE, brmay |-> Handlers.brmay, preNode |-> pre2] ELSE snap
+     /\ ctrl' = R.ctrl /\ data' = R.data /\ fmk' = R.fmk /\ startN' = R.startN /\ endN' = R.endN
+     /\ berr' = IF R.sticky THEN j ELSE berr
+     /\ wf' = [wf EXCEPT !.dfr = IF isWf /\ berr = 0 /\ R.res = "ok" THEN <<>> ELSE wf.dfr,
+                         !.mapped = IF wfres = "ok" /\ berr = 0 THEN R.mapped \cup wf.sv ELSE R.mapped]
      /\ Finish(res)
-     /\ UNCHANGED <<nodes, ctrl, data, brs, tv, mayE, fmk, berr, startN, endN>>
+     /\ UNCHANGED <<nodes, brs, tv, mayE>>
 
 --------------------------------------------------------------------------------
 Call(op) ==
@@ -228,6 +281,12 @@ Call(op) ==
   /\ hist' = Append(hist, op)
   /\ LET j == Len(hist) + 1 IN
      IF op.op = "compile" THEN DoCompile(op, j)
+     ELSE IF op.op = "static" THEN      \* WorkflowNode.SetStaticValue: writes the node's own map, no check of any kind
+          /\ wf' = [wf EXCEPT !.sv = wf.sv \cup {<<op.k, op.x>>}] /\ Finish("ok")
+          /\ UNCHANGED <<nodes, ctrl, data, brs, tv, mayE, preNode, fmk, berr, compiled, startN, endN, snap>>
+     ELSE IF hdr.fe = "wf" /\ op.op = "edge" THEN    \* deferred to Compile; the call itself returns nothing
+          /\ wf' = [wf EXCEPT !.dfr = Append(wf.dfr, op)] /\ Finish("ok")
+          /\ UNCHANGED <<nodes, ctrl, data, brs, tv, mayE, preNode, fmk, berr, compiled, startN, endN, snap>>
      ELSE IF berr # 0 THEN Finish("S") /\ UNCHANGED builder                 \* sticky build error first ...
      ELSE IF compiled THEN Finish("C") /\ UNCHANGED builder                \* ... then the compiled flag
      ELSE IF op.op \in {"node", "pass"} THEN DoNode(op, j)
@@ -240,8 +299,10 @@ FirstCompileIdx == FirstIn(1..Len(hist), LAMBDA j : hist[j].op = "compile")
 AfterErr == IF berr = 0 THEN 0 ELSE Len(hist) - berr
 Panicked == \E j \in 1..Len(outs) : outs[j] = "P"
 Prologue == /\ todo # <<>> /\ Call(Head(todo)) /\ todo' = Tail(todo) /\ UNCHANGED <<hdr, plen>>
+\* workflow front end: nothing more is tried after a Compile that failed (the wrapper's bookkeeping is then half done)
+WfStopped == hdr.fe = "wf" /\ \E i \in 1..Len(outs) : hist[i].op = "compile" /\ outs[i] # "ok"
 Free ==
-  /\ todo = <<>> /\ pc = "idle" /\ ~Panicked /\ UNCHANGED <<hdr, todo, plen>>
+  /\ todo = <<>> /\ pc = "idle" /\ ~Panicked /\ ~WfStopped /\ UNCHANGED <<hdr, todo, plen>>
   /\ LET K == Declared  fc == FirstCompileIdx IN
      IF fc = 0 THEN
         \/ \E op \in Alphabet(K) : /\ NAdd - plen < MaxAdds
@@ -270,14 +331,14 @@ Conn == data \cup UNION {{<<brs[b].a, e>> : e \in brs[b].ends} : b \in 1..Len(br
 FlowNodes == Declared \cup {START}
 RECURSIVE DFlow(_)
 DFlow(V) ==
-  LET arrive(s, e) == IF <<s, e>> \in mayE THEN {d \in V[s] : DynOK(d, InType(e))} ELSE V[s]
+  LET arrive(s, e) == {d \in V[s] : \A m \in mayE : (m[1] = s /\ m[2] = e) => DynOK(d, m[3])}
       inp(n) == UNION {arrive(p[1], n) : p \in {q \in Conn : q[2] = n}}
       V2 == [n \in FlowNodes |-> IF n = START THEN DynOf(hdr.gi)
                                   ELSE IF nodes[n].kind = "typed" THEN (IF inp(n) = {} THEN {} ELSE DynOf(nodes[n].o))
                                   ELSE inp(n)]
   IN IF V2 = V THEN V ELSE DFlow(V2)
 VF == DFlow([n \in FlowNodes |-> IF n = START THEN DynOf(hdr.gi) ELSE {}])
-Arrive(s, e) == IF <<s, e>> \in mayE THEN {d \in VF[s] : DynOK(d, InType(e))} ELSE VF[s]
+Arrive(s, e) == {d \in VF[s] : \A m \in mayE : (m[1] = s /\ m[2] = e) => DynOK(d, m[3])}
 Sound == (AtRest /\ compiled /\ Untyped = {}) =>
            /\ \A p \in Conn : (p[2] = END \/ nodes[p[2]].kind = "typed") => \A d \in Arrive(p[1], p[2]) : DynOK(d, InType(p[2]))
            /\ \A b \in 1..Len(brs) : \A d \in (IF brs[b].may THEN {x \in VF[brs[b].a] : DynOK(x, brs[b].t)} ELSE VF[brs[b].a]) : DynOK(d, brs[b].t)
@@ -285,6 +346,6 @@ Sound == (AtRest /\ compiled /\ Untyped = {}) =>
 --------------------------------------------------------------------------------
 (* Conformance cases: every maximal history *)
 Terminal == /\ AtRest /\ todo = <<>> /\ FirstCompileIdx # 0
-            /\ (Len(hist) - FirstCompileIdx = MaxPost \/ Panicked)
+            /\ (Len(hist) - FirstCompileIdx = MaxPost \/ Panicked \/ WfStopped)
 Emit == Terminal => PrintT(<<"CASE", ToJson([fe |-> hdr.fe, gi |-> hdr.gi, go |-> hdr.go, state |-> hdr.state, ops |-> hist, pred |-> outs])>>)
 ================================================================================
